@@ -59,24 +59,27 @@ type caseRec struct {
 }
 
 type runner struct {
-	c       *vc.Ctx
-	smp     []metrics.Sample
-	mu      sync.Mutex
-	curEP   string
-	curIn   []byte
-	curT0   time.Time
-	busy    bool
-	hang    chan caseRec
-	curFile string
-	stopAt  map[string]bool // ep|class for which the length-claim escalation is stopped
-	nCalls  int64
-	maxA    map[string]uint64 // largest allocation delta seen per entry point (fast counter)
-	maxT    map[string]time.Duration
+	c         *vc.Ctx
+	smp       []metrics.Sample
+	mu        sync.Mutex
+	curEP     string
+	curIn     []byte
+	curT0     time.Time
+	busy      bool
+	hang      chan caseRec
+	curFile   string
+	stopAt    map[string]bool // ep|class for which the length-claim escalation is stopped
+	nCalls    int64
+	nSamples  int
+	maxA      map[string]uint64 // largest allocation delta seen per entry point (fast counter)
+	maxT      map[string]time.Duration
 	confirmed map[string]bool // allocation violation keys already confirmed with the precise counter
 	allocHits map[string]int  // confirmed allocation violations per entry point + input class (circuit breaker)
-	sumT    map[string]time.Duration
-	cnt     map[string]int64
+	sumT      map[string]time.Duration
+	cnt       map[string]int64
 }
+
+var statsOn = os.Getenv("C12_STATS") != ""
 
 func newRunner(c *vc.Ctx) *runner {
 	r := &runner{c: c, smp: []metrics.Sample{{Name: "/gc/heap/allocs:bytes"}}, hang: make(chan caseRec, 1), stopAt: map[string]bool{}, maxA: map[string]uint64{}, maxT: map[string]time.Duration{}, confirmed: map[string]bool{}, allocHits: map[string]int{}, sumT: map[string]time.Duration{}, cnt: map[string]int64{}}
@@ -200,8 +203,15 @@ func (r *runner) do(sec string, ep *EP, in []byte, class string) (ok, bad bool) 
 	}
 	r.sumT[ep.Name] += dt
 	r.cnt[ep.Name]++
+	if statsOn {
+		r.sumT["class|"+class+" @ "+ep.Name] += dt
+	}
 	if dt > r.maxT[ep.Name] {
 		r.maxT[ep.Name] = dt
+	}
+	if s, isStr := pv.(string); isStr && strings.HasPrefix(s, "harness:") {
+		c.HarnessError("%s on entry point %s input %s", s, ep.Name, short(in))
+		return false, false
 	}
 	switch {
 	case pv != nil:
@@ -365,6 +375,10 @@ func allocClass(class string) string {
 // doClass is do() plus the (entry point, class, outcome) distinct key.
 func (r *runner) doClass(sec string, ep *EP, in []byte, class string) (ok, bad bool) {
 	ok, bad = r.do(sec, ep, in, class)
+	if r.c.Shard == 0 && r.nSamples < 6 && len(in) > 8 && len(in) < 200 && r.nCalls%977 == 0 {
+		r.nSamples++
+		r.c.Sample(map[string]any{"section": sec, "entry_point": ep.Name, "input_class": class, "input_hex": vc.Hex(in), "returned_value": ok, "violation": bad})
+	}
 	if !bad {
 		if ok {
 			r.c.Distinct(ep.Name + "|" + allocClass(class) + "|value")
@@ -491,6 +505,8 @@ func (r *runner) body() {
 		lap("evidence")
 	}
 	if want("2") {
+		r.sectionGenuine(corpus)
+		lap("genuine")
 		r.section2(corpus)
 		lap("section2")
 	}
@@ -499,10 +515,18 @@ func (r *runner) body() {
 			fmt.Fprintf(os.Stderr, "STAT shard=%d ep=%s maxalloc=%d maxtime=%v\n", c.Shard, k, v, r.maxT[k])
 			fmt.Fprintf(os.Stderr, "SUMT shard=%d ep=%s sum=%.3f n=%d\n", c.Shard, k, r.sumT[k].Seconds(), r.cnt[k])
 		}
+		for k, v := range r.sumT {
+			if strings.HasPrefix(k, "class|") {
+				fmt.Fprintf(os.Stderr, "SUMC shard=%d %s sum=%.3f\n", c.Shard, k[6:], v.Seconds())
+			}
+		}
 	}
 	if c.Shard == 0 {
 		c.Extra("entry_points", epNames())
 		c.Extra("seed_corpus", corpus.describe())
+		if len(corpus.thoroughOnly) > 0 {
+			c.Extra("seeds_swept_in_thorough_only", corpus.thoroughOnly)
+		}
 	}
 }
 
